@@ -483,6 +483,26 @@ class Stepper(Machine):
     def with_top(self, t: Thread, fr: Frame) -> Thread:
         return replace(t, frames=(*t.frames[:-1], fr))
 
+    def _exit_controlling_tests(self, fq: str) -> set[int]:
+        """Test nodes of `fq` on which a break / continue / return / raise is control dependent (tests that only guard prints and the like do not matter)."""
+        cache = self.__dict__.setdefault("_exit_tests", {})
+        if fq not in cache:
+            g = self.m.cfg(self.func(fq))
+            plain = CFG(self.func(fq).node)  # without exceptional edges: "may raise" must not make everything control dependent on everything
+            tests_ast: set[int] = set()
+            for x in plain.live:
+                if x.kind in ("break", "continue", "return"):
+                    for tnode, _lab in plain.control_closure(x):
+                        if tnode.kind == "test" and tnode.ast is not None:
+                            tests_ast.add(id(tnode.ast))
+            out: set[int] = {x.idx for x in g.live if x.kind == "test" and x.ast is not None and id(x.ast) in tests_ast}
+            cache[fq] = out
+        return cache[fq]
+
+    def _in_cal_frame(self, t) -> bool:
+        """The thread's innermost frame is Calibrator.calibrate itself (not a scheduler / environment method inlined into it)."""
+        return bool(t.frames) and t.frames[-1].fq.endswith("Calibrator.calibrate")
+
     # ------------------------------------------------------------------ classification of the node's principal call
     def principal(self, n: Node) -> ast.Call | None:
         a = n.ast
@@ -904,7 +924,12 @@ class Stepper(Machine):
                 if tv is None or tv is want:
                     tgt = self.succ(n, lab)
                     if tgt is not None:
-                        outs.append((self.put_th(st, who, self.with_top(t, replace(fr, node=tgt.idx))), ev_out))
+                        st_b = st
+                        if tv is None and who == "main" and self._in_cal_frame(t) and n.idx in self._exit_controlling_tests(t.frames[-1].fq):
+                            # a data-dependent decision of the calibration loop itself (e.g. early stopping): two runs that decide differently are different
+                            # *inputs*, not different schedules - the decision becomes part of what schedule-independence is compared under
+                            st_b = st.gset("choices", (*st.g("choices", ()), (n.lineno, lab)))
+                        outs.append((self.put_th(st_b, who, self.with_top(t, replace(fr, node=tgt.idx))), ev_out))
             return outs
         if n.kind == "with":
             return [(self._advance(st, who, n), ev_out)]
@@ -1158,7 +1183,7 @@ def _terminal_checks(stepper: Stepper, st: State, res: Result, seen: dict, plan:
     hist = st.g("policy_hist", ())
     sig = (executed, hist)
     fault = st.g("fault_at")
-    key = (plan, fault)
+    key = (plan, fault, st.g("choices", ()))
     if key not in res.schedules:
         res.schedules[key] = (sig, st)
     elif res.schedules[key][0] != sig:
